@@ -10,7 +10,8 @@ Tie:   64-byte images of the real constructors vs the Lean encoder; sc-shim log 
        needs_wakeup over harness-owned ring memory against a simulated kernel obeying the contract (out-of-order
        completion, completion ring full, overflow list, link chains, SQPOLL sleep) vs the Lean driver, judged by an
        independent exactly-once oracle (checks/c18_kring.py); the contract's consequences on the REAL kernel:
-       `overflow` runs (more completions outstanding than the completion ring holds, reaped late)."""
+       `overflow` runs (more completions outstanding than the completion ring holds, reaped late), `refrace` and the
+       delayed-read run (the entry behind the reference get_next_cqe returned must not change before the next call)."""
 import os
 import shutil
 import tempfile
@@ -134,8 +135,9 @@ def run(ctx):
         "direct call's result or -ECANCELED behind a failed link, any completion order, posting only while the completion ring has room, "
         "FIFO overflow list otherwise): kernel behaviour, ASSUMED by cqe_exactly_once / cqe_complete_at_quiescence / link_chain_order / "
         "one_cqe_per_sqe; its observable consequences are checked on the running kernel by the batch and overflow oracle runs, not proved",
-        "call granularity: the theorems read the completion at the moment get_next_cqe returns; below that granularity exactly-once is FALSE "
-        "for the code as it is (known finding: reap_reference_outlives_slot, streams kring-split-reap and refrace)",
+        "below call granularity (the returned entry read after arbitrary kernel steps) exactly-once is proved for the split model "
+        "(cqe_exactly_once_split) and exercised by the streams kring-split-reap, refrace and the delayed-read overflow run; before /repo "
+        "bc63d9e it was false (orig_reap_reference_outlives_slot)",
         "the simulated kernel of harness/c18/src/kring.rs is an independent Rust reading of the contract (checked against the Lean model "
         "token by token and by the Python oracle of checks/c18_kring.py)",
         "Model/UringRes.lean describes setup_io_uring/Drop (checked by the sc-shim log of real runs on this kernel)",
@@ -256,7 +258,7 @@ def run(ctx):
     kcases = K.directed_cases() + K.gen_cases(ctx.rng, 12000 if quick else 250000, 56 if quick else 160)
     split_cases = K.gen_cases(ctx.rng, 2500 if quick else 40000, 40 if quick else 120, split=True)
     kexe_debug = None
-    # the finding's minimal witness (= theorem reap_reference_outlives_slot) first
+    # the minimal witness of the repaired defect (= theorem orig_reap_reference_outlives_slot) first
     split_cases.insert(0, "kring 0 0 1 0 0 : g 1 0 7 : f : k 1 : x 0 : g 2 0 8 : f : k 1 : x 0 : g 3 0 9 : f : k 1 : x 0 : rb : o 1 : rr : r : r : r")
     for release in (False, True):
         mode = "release" if release else "debug"
@@ -269,8 +271,8 @@ def run(ctx):
             kexe_debug = kexe
         C.correspond(ctx, "kring-" + mode, kcases, [kexe], drv, K.judge, K.sig_of)
         C.correspond(ctx, "kring-malformed-" + mode, K.MALFORMED, [kexe], drv, K.judge, K.sig_of)
-        # below call granularity (the reference get_next_cqe returns is read after kernel steps): a KNOWN finding,
-        # the model (krun2) shows the same witnesses
+        # below call granularity: the reference get_next_cqe returns is read after arbitrary kernel steps (cqe_exactly_once_split;
+        # before /repo bc63d9e this stream showed a completion lost and another delivered twice)
         C.correspond(ctx, "kring-split-reap-" + mode, split_cases, [kexe], drv, K.judge, K.sig_of)
         if not release:
             _, kouts, _ = C.run_filter([kexe], kcases)
@@ -294,20 +296,24 @@ def run(ctx):
         nref = len(lines)
         lines += ["refrace %d" % e for e in (1, 2, 8, 64)]
         # the overflow / refrace lines run on the cfg(tiny_std_verif) build: with the read-only view of the ring pointers the
-        # harness copies each completion out BEFORE get_next_cqe advances the head, so its accounting is immune to the known
-        # finding (which otherwise shows up by itself, rarely, as a torn completion) and reports it when it happens
+        # harness copies each completion out BEFORE it calls get_next_cqe and compares with what the returned reference shows
+        # (before /repo bc63d9e the two differed now and then: the slot was released before the caller read the entry)
         rc, outs, errt = C.run_filter([exe], lines[:nover], timeout=(100 if quick else 1700))
         rc2, outs2, errt2 = C.run_filter([kexe_debug], lines[nover:], timeout=(200 if quick else 1700))
         outs, errt = outs + outs2, errt + errt2
         ctx.evaluations += len(lines)
         # the same overflow scenario with a few microseconds of user-mode work between get_next_cqe() and the read of the
-        # returned reference, no system call in between (informational: how readily the known finding shows up in the wild)
+        # returned reference, no system call in between (before /repo bc63d9e: dozens of overwritten references per 1000 ops)
         _, wild, _ = C.run_filter([kexe_debug], ["overflow %s/w%d %d %d %d" % (tmp, i, ctx.rng.below(2**32), 60, e) for i, e in enumerate((1, 3, 8))],
                                   timeout=300, env={"C18_READ_DELAY_SPINS": "3000"})
-        ctx.extra["reference_overwritten_in_the_wild_with_3000_spins_before_the_read"] = [w[:260] for w in wild]
+        ctx.extra["overflow_run_with_3000_spins_between_get_next_cqe_and_the_read"] = [w[:260] for w in wild]
+        ctx.evaluations += len(wild)
         for w in wild:
-            if w.startswith("refrace-in-the-wild"):
-                ctx.violation({"op": "overflow-delayed-read", "kind": "held-reference-overwritten"}, {"implementation": w[:400]})
+            if not w.startswith("agree "):
+                ctx.violation({"op": "overflow-delayed-read", "kind": "held-reference-overwritten" if w.startswith("refrace-in-the-wild") else w[:40]},
+                              {"implementation": w[:400], "how_to_replay": "C18_READ_DELAY_SPINS=3000 %s  # line: overflow <dir> <seed> 60 <1|3|8>; timing dependent" % kexe_debug,
+                               "why": "what the reference returned by get_next_cqe showed a few microseconds later was not the completion that was in the "
+                                      "slot when the call was made: the kernel overwrote an entry the caller could still read"})
         ctx.extra["oracle_run"] = outs
         if len(outs) != len(lines):
             ctx.violation({"kind": "oracle-run-crashed"}, {"lines": lines, "outputs": outs, "stderr": errt[-400:]})
@@ -322,14 +328,18 @@ def run(ctx):
                 if o.startswith("setup-err"):
                     continue
                 if not o.endswith("exactly-once=true"):
-                    ctx.violation({"op": "refrace", "kind": "held-reference-overwritten"},
+                    kv = dict(x.split("=", 1) for x in o.split() if "=" in x)
+                    changed = kv.get("held-before-enter") != kv.get("held-after-enter")
+                    ctx.violation({"op": "refrace", "kind": "held-reference-overwritten" if changed else "not-exactly-once"},
                                   {"case": ln, "implementation": o, "how_to_replay": "echo '%s' | %s" % (ln, kexe_debug),
-                                   "why": "on the running kernel: the completion read through the reference get_next_cqe returned changed when the kernel "
-                                          "flushed its overflow list (get_next_cqe had already advanced the shared head): one operation's completion is "
-                                          "lost, another is reaped twice"})
+                                   "why": ("on the running kernel: the completion read through the reference get_next_cqe returned changed when the kernel "
+                                           "flushed its overflow list (the slot was released before the caller read the entry): one operation's completion is "
+                                           "lost, another is reaped twice") if changed else
+                                          "on the running kernel: 2*entries+1 operations submitted with the completion ring full and one completion on the kernel's "
+                                          "overflow list; reaping (get_next_cqe until None, io_uring_enter(GETEVENTS), repeat) did not deliver every user_data exactly once"})
             for ln, o in zip(lines[nover:nref], outs[nover:nref]):
                 if o.startswith("refrace-in-the-wild "):
-                    # the known finding, caught in the act on the running kernel (the accounting used the copies taken before the head moved)
+                    # the entry behind a returned reference changed under the caller, caught in the act on the running kernel
                     ctx.violation({"op": "overflow", "kind": "held-reference-overwritten"},
                                   {"case": ln, "implementation": o[:600], "how_to_replay": "echo '%s' | %s   # timing dependent" % (ln, kexe_debug)})
                     o = "agree " + o[len("refrace-in-the-wild "):].split(" first: ")[0]
